@@ -29,6 +29,9 @@ CONSTANTS Vers, Fams,           \* sets of versions / cipher families to explore
           LenClasses,           \* abstract payload length classes (0 = empty record)
           AllowLoss,            \* enable KF_LossResync
           Faults,               \* subset of {"nokeys","nosuite","midstart"}
+          Unsup,                \* named inputs OUTSIDE what C01 claims that the code must survive (C03 / C06 / C08): subset of
+                                \*   "keyupdate" - TLS 1.3 KeyUpdate (RFC 8446 4.6.3): not implemented, the direction goes dark after it
+                                \*   "hrr"       - HelloRetryRequest: hello, HRR, CCS, CCS, second hello, ServerHello
           Alerts,               \* allow one alert record in the application phase (half-close; data after an alert is not claimed by C01)
           EmitOn
 
@@ -41,7 +44,8 @@ ValidPair(v, f) ==
     [] OTHER       -> f \in {"CBC", "RC4"}
 ImplicitIV(v) == v \in {"SSL30", "TLS10"}
 
-VARIABLES ver, fam, abbrev, hsInLog, pad, tickets, group, fault,   \* world (chosen in Init)
+VARIABLES ver, fam, abbrev, hsInLog, pad, tickets, group, fault, hrr,   \* world (chosen in Init)
+          ku,                                                              \* directions that sent a KeyUpdate (environment)
           pc,                   \* position in the handshake script
           snd,                  \* sender cipher state per direction
           nApp, nextId,         \* application records sent, next payload id
@@ -55,8 +59,8 @@ VARIABLES ver, fam, abbrev, hsInLog, pad, tickets, group, fault,   \* world (cho
           lost,                 \* a record was dropped from the capture (KF_LossResync taken)
           hist                  \* records in capture order (history, for behaviour export)
 
-world == <<ver, fam, abbrev, hsInLog, pad, tickets, group, fault>>
-envv  == <<pc, snd, nApp, nextId, sentApp, lost, alerted>>
+world == <<ver, fam, abbrev, hsInLog, pad, tickets, group, fault, hrr>>
+envv  == <<pc, snd, nApp, nextId, sentApp, lost, alerted, ku>>
 implv == <<chSeen, canDec, hasDec, ccs, rcv, exported, crashed>>
 implAll == <<implv, metaOut>>
 vars  == <<world, envv, implv, metaOut, hist>>
@@ -71,7 +75,8 @@ Full12 == <<R("c","CH"), R("s","SH")>>
           \o (IF tickets THEN <<R("s","HS")>> ELSE <<>>)
           \o <<R("s","CCS"), R("s","FIN")>>
 Abbr12 == <<R("c","CH"), R("s","SH"), R("s","CCS"), R("s","FIN"), R("c","CCS"), R("c","FIN")>>
-Full13 == <<R("c","CH"), R("s","SH"), R("s","CCS")>>
+Full13 == (IF hrr THEN <<R("c","CH"), R("s","SH"), R("s","CCS"), R("c","CCS"), R("c","CH"), R("s","SH")>>     \* the HRR is ServerHello-shaped
+                 ELSE <<R("c","CH"), R("s","SH"), R("s","CCS")>>)
           \o (IF group = "flight" THEN <<R("s","F13")>> ELSE <<R("s","H13"), R("s","H13"), R("s","H13"), R("s","F13")>>)
           \o <<R("c","CCS"), R("c","F13")>>
 Script == IF ver = "TLS13" THEN Full13 ELSE IF abbrev THEN Abbr12 ELSE Full12
@@ -126,7 +131,7 @@ Handle(r) ==
          /\ IF r.len = 1 /\ ver # "TLS13" THEN UNCHANGED <<chSeen, canDec>>
             ELSE chSeen' = FALSE /\ canDec' = FALSE
          /\ UNCHANGED <<hasDec, ccs, rcv, exported, crashed>>
-    [] r.k \in {"APP", "H13", "F13", "T13", "A13"} ->            \* record type 0x17 (A13: a TLS 1.3 alert travels as such a record)
+    [] r.k \in {"APP", "H13", "F13", "T13", "A13", "K13"} ->     \* record type 0x17 (A13 / K13: a TLS 1.3 alert / KeyUpdate travels as such a record)
          IF ~(canDec /\ hasDec) THEN UNCHANGED implv
          ELSE LET out == Outcome(r, rcv[r.d]) IN
               IF ver = "TLS13"
@@ -153,14 +158,16 @@ MetaStep(r) ==
        \o (IF appOk THEN <<M(r.d, "app", exported'[r.d][Len(exported'[r.d])])>> ELSE <<>>)
 
 (* ---------------- environment steps (produce + capture + handle) ---------------- *)
-Protected(k) == k \in {"FIN", "APP", "H13", "F13", "T13", "ALERT", "A13"}
+Protected(k) == k \in {"FIN", "APP", "H13", "F13", "T13", "ALERT", "A13", "K13"}
 Rec(d, k, len) == [d |-> d, k |-> k, id |-> nextId, len |-> len, pad |-> (pad /\ k = "APP"),
                    prot |-> IF Protected(k) THEN Stamp(d) ELSE Fresh("none")]
 
 Emitted(r, drop) ==
   /\ nextId' = nextId + 1
   /\ snd' = IF Protected(r.k)
-            THEN [snd EXCEPT ![r.d] = IF r.k = "F13" THEN Fresh("app") ELSE SndAdvance(@, r.id, r.len)]
+            THEN [snd EXCEPT ![r.d] = IF r.k = "F13" THEN Fresh("app")
+                                      ELSE IF r.k = "K13" THEN Fresh("app+")        \* next generation traffic secret, sequence number 0
+                                      ELSE SndAdvance(@, r.id, r.len)]
             ELSE IF r.k = "SH" THEN [x \in Dir |-> Fresh(IF ver = "TLS13" THEN "hs" ELSE "app")]
             ELSE snd
   /\ IF drop THEN UNCHANGED implAll /\ hist' = Append(hist, [r EXCEPT !.k = "LOST:" \o r.k])
@@ -184,6 +191,13 @@ Ticket13 == /\ pc > Len(Script) /\ ver = "TLS13" /\ tickets /\ nApp < MaxApp
             /\ LET r == Rec("s", "T13", 2) IN Emitted(r, FALSE)
             /\ UNCHANGED <<world, pc, nApp, sentApp, lost>>
 
+\* TLS 1.3 KeyUpdate of one direction (at most one per direction): the message itself is the last record of the old generation
+KeyUpdate13 == /\ "keyupdate" \in Unsup /\ ver = "TLS13" /\ pc > Len(Script) /\ nApp < MaxApp
+               /\ \E d \in Dir \ ku :
+                    /\ LET r == Rec(d, "K13", 2) IN Emitted(r, FALSE)
+                    /\ ku' = ku \cup {d}
+               /\ UNCHANGED <<world, pc, nApp, sentApp, lost, alerted>>
+
 KF_LossResync == AllowLoss /\ ~lost /\ AppStep(TRUE) /\ lost' = TRUE /\ UNCHANGED alerted
 
 \* one alert of either side somewhere in the application phase (e.g. close_notify of a half-close); the other side may go on
@@ -193,7 +207,8 @@ AlertStep == /\ Alerts /\ alerted = "none" /\ pc > Len(Script) /\ nApp < MaxApp
                   /\ alerted' = d
              /\ UNCHANGED <<world, pc, nApp, sentApp, lost>>
 
-Next == (HsStep /\ UNCHANGED alerted) \/ (AppStep(FALSE) /\ UNCHANGED <<lost, alerted>>) \/ (Ticket13 /\ UNCHANGED alerted) \/ KF_LossResync \/ AlertStep
+Next == (HsStep /\ UNCHANGED <<alerted, ku>>) \/ (AppStep(FALSE) /\ UNCHANGED <<lost, alerted, ku>>) \/ (Ticket13 /\ UNCHANGED <<alerted, ku>>)
+        \/ (KF_LossResync /\ UNCHANGED ku) \/ (AlertStep /\ UNCHANGED ku) \/ KeyUpdate13
 
 Init == /\ ver \in Vers /\ fam \in Fams /\ ValidPair(ver, fam)
         /\ abbrev \in (IF ver = "TLS13" THEN {FALSE} ELSE BOOLEAN)
@@ -202,6 +217,7 @@ Init == /\ ver \in Vers /\ fam \in Fams /\ ValidPair(ver, fam)
         /\ tickets \in (IF abbrev THEN {FALSE} ELSE BOOLEAN)
         /\ group \in (IF abbrev THEN {"permsg"} ELSE {"permsg", "flight"})
         /\ fault \in ({"none"} \cup Faults)
+        /\ hrr \in (IF ver = "TLS13" /\ "hrr" \in Unsup THEN BOOLEAN ELSE {FALSE}) /\ ku = {}
         /\ pc = Start /\ snd = [x \in Dir |-> Fresh("none")]
         /\ nApp = 0 /\ nextId = 1 /\ sentApp = [x \in Dir |-> <<>>] /\ lost = FALSE /\ alerted = "none"
         /\ chSeen = FALSE /\ canDec = FALSE /\ hasDec = FALSE /\ ccs = [x \in Dir |-> FALSE]
@@ -211,7 +227,7 @@ Spec == Init /\ [][Next]_vars
 
 (* ---------------- contract ---------------- *)
 Done == pc > Len(Script) /\ nApp = MaxApp
-Healthy == fault = "none" /\ ~lost /\ alerted = "none"
+Healthy == fault = "none" /\ ~lost /\ alerted = "none" /\ ku = {}
 \* C01: at quiescence exactly the application data each endpoint sent, in order
 ExportedEqualsSent == (Done /\ Healthy) => \A d \in Dir : exported[d] = sentApp[d]
 \* C01 / C03 / C08: always a prefix (holds before quiescence, under missing keys, unknown suite, mid-start)
@@ -222,6 +238,12 @@ NeverGarbage == ~lost => \A d \in Dir : \A i \in 1..Len(exported[d]) : exported[
 NeverCrashes == ~crashed
 \* what loss does (documents KF_LossResync per family): checked only in the AllowLoss configuration
 PrefixUnderLoss == \A d \in Dir : IsPrefix(exported[d], sentApp[d])
+\* named unsupported input KeyUpdate: the updating direction exports exactly what it sent before the update, the other one everything
+SentBeforeKu(d) == LET idx == { i \in 1..Len(hist) : hist[i].k = "K13" /\ hist[i].d = d }
+                       cut == IF idx = {} THEN Len(hist) + 1 ELSE CHOOSE i \in idx : TRUE
+                       sel == SelectSeq(SubSeq(hist, 1, cut - 1), LAMBDA h : h.k = "APP" /\ h.d = d)
+                   IN [i \in 1..Len(sel) |-> sel[i].id]
+KeyUpdateDark == (Done /\ fault = "none" /\ ~lost /\ alerted = "none") => \A d \in Dir : exported[d] = SentBeforeKu(d)
 \* keyless / unsupported sessions export nothing
 ClosedGate == (fault \in {"nokeys", "nosuite", "midstart"}) => \A d \in Dir : exported[d] = <<>>
 \* C08
@@ -238,7 +260,7 @@ View == <<world, envv, implv>>
 
 Emit == (EmitOn /\ Done) =>
    PrintT(ToJson([ver |-> ver, fam |-> fam, abbrev |-> abbrev, hsInLog |-> hsInLog, pad |-> pad, tickets |-> tickets,
-                  group |-> group, fault |-> fault, lost |-> lost,
+                  group |-> group, fault |-> fault, lost |-> lost, hrr |-> hrr, ku |-> ku,
                   hist |-> [i \in 1..Len(hist) |-> [d |-> hist[i].d, k |-> hist[i].k, len |-> hist[i].len, id |-> hist[i].id]],
                   exported |-> exported, sentApp |-> sentApp]))
 =============================================================================
